@@ -203,6 +203,7 @@ def case_power_history(ctx, prop, N):
     ctx.bounds.update(N=N, history=[{k: str(v) for k, v in s_.items()} for s_ in seq], field="symbolic complex")
     cut = FTCut(ctx, "cut", [], rewrite=False)
     rp = lambda m: harness.pristine_call(replay_power_history, prop, N, [{k: float(v) for k, v in s_.items()} for s_ in seq])
+    ctx.fallback = rp
     for k, vals in enumerate(seq):
         U = symarr("U%d" % k, (N, N), cplx=True)
         sv = {kk: Sym(v) for kk, v in vals.items()}
